@@ -24,6 +24,10 @@ type Step struct {
 	Off   string      `json:"off"`
 	Offs  []string    `json:"offs"`
 	Canon interface{} `json:"canon"`
+	Intro *struct {
+		All     interface{} `json:"all"`
+		Current interface{} `json:"current"`
+	} `json:"intro,omitempty"`
 	// second oracle: outcome under the known deviations, when it differs
 	OKK    *bool       `json:"okK,omitempty"`
 	CanonK interface{} `json:"canonK,omitempty"`
@@ -53,6 +57,7 @@ func docKey(defs []sch.Def) string {
 func cmdLoadHist(args []string) {
 	fs := flag.NewFlagSet("loadhist", flag.ExitOnError)
 	vp := fs.String("vectors", "", "histories json")
+	intro := fs.Bool("intro", false, "compare the introspection view after steps that carry one (C17)")
 	offender := fs.Bool("offender", false, "check that the error of a refused load names the model's offender (single-defect documents only)")
 	_ = fs.Parse(args)
 	var hs []History
@@ -60,7 +65,7 @@ func cmdLoadHist(args []string) {
 	rep := vh.NewReport("schema", "loadhist")
 	for hi := range hs {
 		h := &hs[hi]
-		root := ggql.NewRoot(nil)
+		root := newRootFor(hi, *intro)
 		key := ""
 		failedThenOK := false
 		sawFail := false
@@ -115,6 +120,33 @@ func cmdLoadHist(args []string) {
 					rep.Mismatch(vh.Mismatch{Case: cs, Step: si + 1, What: fmt.Sprintf("offender: the error names none of %q: %v", st.Offs, err), Known: known})
 				}
 			}
+			if *intro && st.Intro != nil && err == nil && len(diffs) == 0 {
+				for _, inc := range []bool{true, false} {
+					view, ierrs := sch.IntroView(root, inc)
+					exp := st.Intro.Current
+					if inc {
+						exp = st.Intro.All
+					}
+					rep.Class("introspection")
+					ids := sch.Diff(exp, view)
+					if ierrs != nil {
+						ids = append(ids, fmt.Sprintf("the introspection response has errors: %v", ierrs))
+					}
+					if len(ids) > 0 {
+						cs["aspect"] = "intro"
+						cs["includeDeprecated"] = inc
+						cs["rootKind"] = rootKinds[hi%len(rootKinds)]
+						rep.Mismatch(vh.Mismatch{Case: cs, Step: si + 1, What: "intro: " + strings.Join(ids, "; "), Known: known})
+						break
+					}
+				}
+				// __type on an unknown name is null
+				r := root.ResolveString(`{ __type(name: "NoSuchTypeAnywhere") { name } }`, "", nil)
+				if d, _ := r["data"].(map[string]interface{}); d == nil || d["__type"] != nil || r["errors"] != nil {
+					cs["aspect"] = "intro"
+					rep.Mismatch(vh.Mismatch{Case: cs, Step: si + 1, What: fmt.Sprintf("intro: __type on an unknown name is not null: %v", r)})
+				}
+			}
 			if len(diffs) > 0 {
 				cs["aspect"] = "schema"
 				what := "schema: after a successful load: "
@@ -143,6 +175,52 @@ func cmdLoadHist(args []string) {
 		}
 	}
 	rep.Emit()
+}
+
+var rootKinds = []string{"reflection", "resolver", "any"}
+
+type appRoot struct{}
+
+func (a *appRoot) Resolve(field *ggql.Field, args map[string]interface{}) (interface{}, error) {
+	switch field.Name {
+	case "query", "mutation", "subscription":
+		return &appRoot{}, nil // the application's operation root object
+	}
+	return nil, nil
+}
+
+// appAny is an application's root resolver: it knows the application's data only.
+type appAny struct{}
+
+func (a *appAny) Resolve(obj interface{}, field *ggql.Field, args map[string]interface{}) (interface{}, error) {
+	switch field.Name {
+	case "query", "mutation", "subscription":
+		return map[string]interface{}{"app": true}, nil
+	}
+	return nil, nil
+}
+func (a *appAny) Len(list interface{}) int { return 0 }
+func (a *appAny) Nth(list interface{}, i int) (interface{}, error) {
+	return nil, fmt.Errorf("not an application list")
+}
+
+// newRootFor rotates the strategy the application would use for its own data (C17: the
+// introspection answer must not depend on it).
+func newRootFor(i int, rotate bool) *ggql.Root {
+	if !rotate {
+		return ggql.NewRoot(nil)
+	}
+	type reflOp struct{ Unused int }
+	type reflApp struct{ Query, Mutation, Subscription *reflOp }
+	switch rootKinds[i%len(rootKinds)] {
+	case "resolver":
+		return ggql.NewRoot(&appRoot{})
+	case "any":
+		r := ggql.NewRoot(map[string]interface{}{})
+		r.AnyResolver = &appAny{}
+		return r
+	}
+	return ggql.NewRoot(&reflApp{Query: &reflOp{}, Mutation: &reflOp{}, Subscription: &reflOp{}})
 }
 
 func histText(h *History, upto int) []string {
